@@ -1121,7 +1121,7 @@ def path_between(k, edges, a, b):
     return list(reversed(p))
 
 
-def build_triple(k, radix, inner, edges, pre, post):
+def build_triple(k, radix, inner, edges, pre, post, pad=0):
     """A circuit on k wires whose two-qudit gates lie on `edges` and whose unitary is EXACTLY
     Po^T . U . Pi  (the contract of EmbedAllPermutationsPass; Pi / Po =
     PermutationMatrix.from_qudit_location(k, radix, pre / post)): wire pre[j] is U's input j,
@@ -1145,6 +1145,11 @@ def build_triple(k, radix, inner, edges, pre, post):
                 c.append_gate(sw, e)
         else:
             c.append_gate(g, loc)
+    # padding: pairs of CX on an edge (CX.CX = identity) - more multi-qudit gates, same unitary
+    if pad and es and radix == 2:
+        for _ in range(pad):
+            c.append_gate(gate_of('CX'), es[0])
+            c.append_gate(gate_of('CX'), es[0])
     inv = [0] * k
     for j, w in enumerate(post):
         inv[w] = j
@@ -1172,7 +1177,18 @@ def make_perm_data(case, circuit, prng):
         perms = list(itertools.permutations(range(k)))
         ident = tuple(range(k))
         mode = case['mode']
-        if mode == 'both':
+        best = None
+        if mode == 'cycle3' and k == 3:
+            # hand-built table: a 3-cycle PRE permutation is strictly the cheapest entry (all others padded)
+            cyc3 = prng.choice([(1, 2, 0), (2, 0, 1)])
+            inv_c = (2, 0, 1) if cyc3 == (1, 2, 0) else (1, 2, 0)
+            posts = [ident, prng.choice(perms)]
+            pairs = [(a, b) for a in (ident, cyc3, inv_c, prng.choice(perms)) for b in posts]
+            pairs = list(dict.fromkeys(pairs))
+            best = (cyc3, posts[0])
+        elif mode == 'cycle3':
+            pairs = [(a, ident) for a in perms]
+        elif mode == 'both':
             pairs = [(a, b) for a in perms for b in perms]
             if len(pairs) > 10:
                 pairs = [(ident, ident)] + prng.sample(pairs, 9)
@@ -1187,7 +1203,8 @@ def make_perm_data(case, circuit, prng):
             g = CouplingGraph([tuple(e) for e in es], k)
             pd[g] = {}
             for pre, post in pairs:
-                pd[g][(pre, post)] = build_triple(k, radix, inner, es, pre, post)
+                pad = 0 if best is None or (pre, post) == best else 8
+                pd[g][(pre, post)] = build_triple(k, radix, inner, es, pre, post, pad)
         datas.append({'point': CircuitPoint(cyc, op.location[0]), 'permutation_data': pd})
     return datas
 
@@ -1230,12 +1247,27 @@ def recording_pam(cls, log, adversary=None, score_adv=None):
             rec = getattr(self, '_rec', None)
             if rec is not None:
                 qs = list(qudits)
+                # what was applied to pi, read as the code documents it: t[0] = inverse global pre, t[2] = global post
                 ilperm = [qs.index(x) for x in t[0]]
                 pre = [ilperm.index(i) for i in range(len(qs))]
                 post = [qs.index(x) for x in t[2]]
+                # which table entry the returned circuit is (by object identity): the step handed to the model
+                # names the TABLE's (pre, post); the model applies pre to pi in the direction of the code
+                # (inverse of the table's input permutation), so a flipped direction makes the replay disagree
+                key = None
+                for g, entries in perm_data.items():
+                    for (a, b), cc in entries.items():
+                        if cc is t[1]:
+                            key = (list(a), list(b))
+                if key is None:
+                    rec.problems.append('chosen circuit is not an entry of perm_data for block on %s' % qs)
+                    key = (pre, post)
+                elif key != (pre, post):
+                    rec.problems.append('block on %s: table entry (pre, post) = %s but the permutations applied to pi '
+                                        'correspond to %s' % (qs, key, (pre, post)))
                 for st in reversed(rec.steps):
                     if st[0] == 'P' and st[2] is None and list(rec.ops[st[1]].location) == qs:
-                        st[2], st[3] = pre, post
+                        st[2], st[3] = key
                         break
                 else:
                     rec.problems.append('no pending block for chosen triple on %s' % qs)
@@ -1653,6 +1685,8 @@ def finish_pam(case, obs, lines, outs):
             st[x[0]] = st.get(x[0], 0) + 1
             if x[0] == 'P' and x[2] is not None and (x[2] != sorted(x[2]) or x[3] != sorted(x[3])):
                 st['P_nonid'] = st.get('P_nonid', 0) + 1
+            if x[0] == 'P' and x[2] in ([1, 2, 0], [2, 0, 1]):
+                st['P_pre_3cycle'] = st.get('P_pre_3cycle', 0) + 1
     st['passes'] = len(obs['log'])
     st['swaps_emitted'] = sum(1 for r in obs['log'] if r.modify for x in r.steps if x[0] in 'SU')
     if obs['error'] is None:
@@ -1751,6 +1785,24 @@ def gen_cases(ctx):
     # permutation-aware mapping (PAM) with exact pre-synthesised triples
     for _ in range(ctx.n(90, 1500)):
         cases.append(gen_pam_case(rng))
+    # directed: 3-qudit blocks whose cheapest table entry has a 3-cycle as PRE permutation (not an involution:
+    # the direction in which _get_best_perm applies it to pi matters), gate count weight dominating
+    for _ in range(ctx.n(40, 500)):
+        c = gen_pam_case(rng)
+        m = rng.randint(3, 6)
+        n = rng.randint(3, m)
+        c.update(n=n, m=m, edges=[list(e) for e in prefix_connected_graph(rng, m, n, rng.choice([0, 0.2, 0.6]))],
+                 mode='cycle3', gcw=rng.choice([20.0, 50.0]), layout_passes=rng.choice([0, 1]))
+        c['params']['adv_perm'] = False
+        blocks = []
+        for _b in range(rng.randint(1, 4)):
+            loc = sorted(rng.sample(range(n), 3))
+            inner = [[rng.choice(G2), rng.sample(range(3), 2)] for _g in range(rng.randint(1, 3))]
+            if rng.random() < 0.3:
+                inner.append([rng.choice(G1), [rng.randrange(3)]])
+            blocks.append(['BLOCK', loc, inner])
+        c['ops'] = blocks
+        cases.append(c)
     # malformed stream: disconnected machine, machine too small
     for _ in range(ctx.n(45, 500)):
         kind = rng.choice(['disconnected', 'small', 'trivial_disconnected'])
@@ -2038,7 +2090,8 @@ def run(ctx: vf.Ctx):
             ctx.sample(dict(n=case['n'], m=case['m'], edges=case['edges'], ops=case['ops'][:6], steps=st.get('steps'),
                             backtracks=st.get('B')), limit=3)
     ctx.cov['model_steps_replayed'] = dict(Exec=agg.get('E', 0), Swap=agg.get('S', 0), Backtrack=agg.get('B', 0), Uphill=agg.get('U', 0),
-                                           PamExec=agg.get('P', 0), PamExec_nonidentity_perm=agg.get('P_nonid', 0), PamBarrier=agg.get('PB', 0))
+                                           PamExec=agg.get('P', 0), PamExec_nonidentity_perm=agg.get('P_nonid', 0), PamExec_pre_3cycle=agg.get('P_pre_3cycle', 0),
+                                           PamBarrier=agg.get('PB', 0))
     ctx.cov['pam_cases'] = agg.get('pam', 0)
     ctx.cov['harness_seconds'] = round(time.time() - t_h, 1)
     ctx.cov['passes_replayed'] = agg.get('passes', 0)
